@@ -4,6 +4,7 @@ import (
 	"fmt"
 	"go/types"
 	"regexp"
+	"sort"
 	"strings"
 
 	"golang.org/x/tools/go/ssa"
@@ -18,7 +19,12 @@ func (en *Engine) special(f *Frame, callee *ssa.Function, key string, args []Val
 func (en *Engine) scanUniverse() {
 	u := en.u
 	u.escFieldType = map[string]types.Type{}
+	var fns []*ssa.Function
 	for fn := range allFunctions(en.prog) {
+		fns = append(fns, fn)
+	}
+	sort.Slice(fns, func(i, j int) bool { return fns[i].String() < fns[j].String() })
+	for _, fn := range fns {
 		if fn.Blocks == nil {
 			continue
 		}
@@ -159,11 +165,14 @@ func (en *Engine) verifyFunc(fn *ssa.Function, ct *FuncContract, findings ...*Fi
 			goal := post.evalBool(e.E)
 			if len(conds) <= 1 {
 				vc.oblige(name, "post", implies(r.reach, goal), clauseProps(e, ct.Props), e.Where+" / "+r.where, "ensures "+e.Src)
+				vc.assume(implies(r.reach, goal))
 				continue
 			}
 			for pi, c := range conds {
 				vc.oblige(fmt.Sprintf("%s/path#%d", name, pi+1), "post", implies(and(c, r.reach), goal), clauseProps(e, ct.Props), e.Where+" / via "+f.splitWhere[pi], "ensures "+e.Src)
 			}
+			// later clauses of the same return site may use this one (it is checked above)
+			vc.assume(implies(r.reach, goal))
 		}
 	}
 	if len(f.rets) == 0 && len(ct.Ensures) > 0 && !ct.NoReturn {
